@@ -91,9 +91,47 @@ pub fn corpus() -> &'static Corpus {
     })
 }
 
+/// an index literal above 65 536 (`a[1_000_000_000] = 1`): the type of the assignment lists every
+/// hole in front of it and the run-time array is padded up to it — gigabytes of memory from a few
+/// bytes of source, which the statement of C04 puts out of scope (memory exhaustion)
+pub fn huge_index(s: &str) -> bool {
+    let b = s.as_bytes();
+    let mut i = 0;
+    while i < b.len() {
+        if b[i] == b'[' {
+            let mut j = i + 1;
+            while j < b.len() && (b[j] == b' ' || b[j] == b'-') {
+                j += 1;
+            }
+            let mut digits = 0usize;
+            let mut significant = false;
+            while j < b.len() && (b[j].is_ascii_digit() || b[j] == b'_') {
+                if b[j].is_ascii_digit() {
+                    if b[j] != b'0' {
+                        significant = true;
+                    }
+                    if significant {
+                        digits += 1;
+                    }
+                }
+                j += 1;
+            }
+            if digits > 5 {
+                return true;
+            }
+        }
+        i += 1;
+    }
+    false
+}
+
 /// naive nesting estimate: open brackets (strings are not skipped: an over-estimate) and runs of
-/// prefix operators; the comment part of a line is ignored
+/// prefix operators; the comment part of a line is ignored. A source with a huge index literal
+/// counts as over every bound (see [`huge_index`]).
 pub fn depth_of(s: &str) -> usize {
+    if huge_index(s) {
+        return usize::MAX / 2;
+    }
     let mut d = 0usize;
     let mut max = 0usize;
     let mut run = 0usize;
@@ -816,6 +854,9 @@ fn check_inner(c: &SrcCase) -> V {
     let src = c.src.as_str();
     if src.len() > MAX_SRC {
         return V::discard("source_longer_than_4KiB");
+    }
+    if huge_index(src) {
+        return V::discard("index_literal_above_99999_memory_out_of_scope");
     }
     if depth_of(src) > MAX_DEPTH {
         return V::discard("nesting_deeper_than_40");
